@@ -119,6 +119,28 @@ def run(tier: str, seed: int) -> int:
             if not np.array_equal(back, c):
                 violation(chk, n, p, f"round trip fails for cell {c[0].tolist()}")
             recs.append(dict(op="refine", n=n, p=p, dg=digits(d[0], p, n), dgp=digits(dp[0], p - 1, n)))
+    # large batches whose length is not a power of two (a vectorised entry point may split the rows into chunks / switch to a parallel
+    # build above some size): both directions, compared row by row with the scalar entry points on a sample that includes the tail,
+    # round trips on every row, and a sample (with the tail) judged by TLC for n = 2
+    for n, p, N in ((2, 9, 12289), (2, 12, 50000), (1, 20, 30011), (3, 6, 17001)) if quick else ((2, 9, 12289), (2, 12, 50000), (2, 15, 100003), (1, 20, 30011), (1, 30, 9001),
+                                                                                                (3, 6, 17001), (3, 10, 40009)):
+        total = 1 << (n * p)
+        dd = np.array([rng.randrange(total) for _ in range(N)], dtype=np.int64)
+        cc = hc.coordinates_from_distances(p, n, dd)
+        back = hc.distances_from_coordinates(p, cc.copy())
+        chk.count(N)
+        if len(cc) != N or not np.array_equal(back, dd):
+            i = int(np.nonzero(np.asarray(back) != dd)[0][0]) if len(cc) == N else -1
+            violation(chk, n, p, f"batch of {N} distances: distance -> coordinates -> distance is not the identity (row {i}: {int(dd[i])} -> {cc[i].tolist()} -> {int(back[i])})")
+            continue
+        for i in list(range(0, N, 997)) + list(range(N - 40, N)):
+            cs = [int(v) for v in hc.coordinate_from_distance(p, n, int(dd[i]))]
+            ds = int(hc.distance_from_coordinate(p, cc[i].copy()))
+            if cs != cc[i].tolist() or ds != int(dd[i]):
+                violation(chk, n, p, f"batch of {N}: scalar and vectorised entry points disagree at row {i}: distance {int(dd[i])}, vectorised cell {cc[i].tolist()}, scalar cell {cs}")
+                break
+            if n == 2:
+                recs.append(dict(op="decode", p=p, dg=digits(dd[i], p, 2), xb=bits(cc[i, 0], p), yb=bits(cc[i, 1], p)))
     verdicts, tres = validate_trace("Trace_Hilbert", recs, timeout=3000)
     chk.add_tlc(tres)
     chk.traces += len(recs)
